@@ -2,6 +2,7 @@
    Statements only; every proof is [exact <lemma>]. *)
 From FMP Require Import Base.Bytes Base.Lts Model.Events Model.Skeleton Model.Props Model.Lifecycle
      Model.Generated Model.GenTypes Model.Msgpack Model.Frame Proofs.LifecycleProofs Proofs.SkeletonProofs Proofs.ClassifyProofs.
+From FMP Require Import Model.CodecCfg Proofs.CodecCfgProofs.
 Open Scope Z_scope.
 
 (* under every schedule of local closers, the receive loop's own exit and observers: Done closes once, IsConnected is
@@ -44,9 +45,14 @@ Example ex_obs : exists st, run (lcstep expected_skeleton) lc_init
     /\ lc_trace st = [AObserve false true 0; AObserve false true 0; AObserve true false 1; AObserve true false 1].
 Proof. eexists. split; vm_compute; reflexivity. Qed.
 
+(* the model turns every read error into the end of the transport because reading a frame never retries: NextFrame and the error-remembering reader contain no loop and decode the length prefix once (regenerated) *)
+Theorem C07_one_read_attempt_per_frame : cdf_nextframe_once codecfacts_now = true.
+Proof. exact codec_nextframe_once. Qed.
+
 Print Assumptions C07_observers_agree.
 Print Assumptions C07_stop_irreversible.
 Print Assumptions C07_err_fixed.
 Print Assumptions C07_continues_iff_not_fatal.
 Print Assumptions C07_classification_generated_ok.
 Print Assumptions C07_local_close_err_nil_refuted.
+Print Assumptions C07_one_read_attempt_per_frame.
